@@ -342,3 +342,15 @@ def c09(ctx):
     ctx.exhaustive = True
     ctx.assumptions += ["'optional zero fields are omitted' is read as 'fields whose text is empty': int 0 / bool false are written "
                         "as 0 / no by design", "pointer fields are not among the supported kinds"]
+
+
+# =========================================================================== typed documents (C10)
+@prop("C10", "C10Trace",
+      "Field tables for .dsc, .changes, debian/control source and binary paragraphs, Packages and Sources stanzas live in "
+      "the specification (DebDocsTables). TLC renders document models one factor at a time: every field absent once, every "
+      "list with 1/2/3 elements, folded and single-line lists, checksum/file lists of 1-3 entries; the typed parsers' results "
+      "are flattened (the harness's key set is checked against the table) and every field and derived accessor is judged.")
+def c10(ctx):
+    g1 = gen(ctx, "DebDocsGen.tla", "DebDocsGen.cfg", ctx.path("docs.ndjson"), what="document models per kind")
+    judge(ctx, "C10", g1, what="typed parsers vs document model")
+    ctx.exhaustive = True
